@@ -1,6 +1,7 @@
 // Harness for the correspondence check: runs the real rssched-solver code on a case file and
 // writes canonical observation lines. Every API call that may panic runs under catch_unwind.
 mod common;
+mod f32ops;
 mod mcf;
 mod net;
 mod ops;
@@ -42,6 +43,7 @@ fn main() {
         "solve" => solve::run(&case, &mut out),
         "trans" => trans::run(&case, &mut out),
         "mcf" => mcf::run(&case, &mut out),
+        "f32" => f32ops::run(&case, &mut out),
         "ops" => ops::run(&case, &mut out),
         "lsearch" => search::run_lsearch(&case, &mut out),
         "neigh" => search::run_neigh(&case, &mut out),
